@@ -4,6 +4,7 @@ import GqlProofs.Lexer.Pos
 import GqlProofs.Lexer.NumFollow
 import GqlProofs.Lexer.SpecStep
 import GqlProofs.Lexer.SpecLex
+import GqlProofs.Lexer.UniLex
 /-
   C03 — tokenisation conforms to the lexical grammar (theorem-backed parts).
 
@@ -27,11 +28,20 @@ import GqlProofs.Lexer.SpecLex
                                    tokens up to the end or the first error (hypothesis `BlocksOK`: no
                                    block string is closed by a run of more than three quotes).
 
-  NOT proved (covered by the exhaustive three-way enumeration of ./check C03 over lex19 / block6 /
-  lexraw16 and the random sweeps): the equivalence for sources with non-ASCII characters:
-      theorem C03_lex_sound_complete (cps) : lexAll (utf8Encode cps) ≈ Spec.lex cps
-  Known finding (`C03_block_long_run_counterexample`, characterised exactly by `C03_block_ascii`): a
-  block string is closed by the LAST three quotes of a longer run.
+   * `C03_lex_utf8`             — EVERY well-formed UTF-8 source (`Utf8.decode inp = some cps`, a strict
+                                   decoder characterised by `C03_utf8_decode_iff`): `lexAll inp` and `Spec.lex cps` produce the
+                                   same tokens (kinds, values through UTF-8, extents in code points) up to
+                                   the end or the first error, under `BlocksOK` on the decoded text;
+                                   `C03_lex_scalars` is the same for `utf8Encode cps`, `C03_step_utf8` /
+                                   `C03_block_utf8` the per-step forms, `C03_ws_utf8` the Ignored run (BOM
+                                   included), `C03_lex_utf8_no_block`, `C03_lex_utf8_outcome` corollaries.
+                                   The ASCII theorems above are special cases (`Utf8.decode_ascii`).
+   * `C03_lex_invalid_utf8_partial` — outside the property (invalid UTF-8): a byte ≥ 128 where a token
+                                   must start always fails with `Cannot parse the unexpected character`.
+
+  Model and specification differ on no well-formed UTF-8 input except for the
+  known finding (`C03_block_long_run_counterexample`, characterised exactly by `C03_block_ascii` /
+  `C03_block_utf8`): a block string is closed by the LAST three quotes of a longer run.
 -/
 open Gql Gql.Lexer
 
@@ -407,9 +417,338 @@ theorem C03_lex_ascii_outcome (inp : Bytes) (hA : Ascii inp) (hb : BlocksOK (inp
 example : BlocksOK 40 (str "{ a(x: \"s\\n\", y: 1.5e3) \"\"\"b\"\"\" }") = true := by decide
 example : (match Spec.lex (str "{ a }") with | .ok ts => ts.length | _ => 0) = 3 := by decide
 
+/-! ### every well-formed UTF-8 source
+
+  The model works on BYTES (`utf8Encode cps`), the specification on the CODE POINTS `cps`; a
+  well-formed UTF-8 source is the encoding of exactly one list of Unicode scalar values
+  (`Utf8.decode`, a strict decoder: `Utf8.decode_sound`, `Utf8.decode_encode`, `C03_utf8_decode_iff`). -/
+
+/-- the strict decoder and `utf8Encode` are inverse: `Utf8.decode inp = some cps` iff `cps` is a list
+    of Unicode scalar values whose UTF-8 encoding is `inp` -/
+theorem C03_utf8_decode_iff (inp : Bytes) (cps : List Nat) :
+    Utf8.decode inp = some cps ↔ (AllScalar cps ∧ utf8Encode cps = inp) := by
+  constructor
+  · intro h; have := Utf8.decode_sound inp cps h; exact ⟨this.2, this.1⟩
+  · intro ⟨h1, h2⟩; rw [← h2]; exact Utf8.decode_encode cps h1
+
+/-- What `ws` skips on a well-formed UTF-8 text is a run `ign` of code points each of which is an
+    Ignored character of the grammar (TAB, space, comma, LF, CR, U+FEFF — the BOM bytes `EF BB BF`
+    count as ONE character), and it stops exactly in front of a character that is none of them
+    (or at the end); the rune counter advances by the number of code points skipped. -/
+theorem C03_ws_utf8 (cps : List Nat) (c : Cur) (hs : AllScalar cps) :
+    ∃ ign cps1, cps = ign ++ cps1 ∧ (ws (utf8Encode cps) c).1 = utf8Encode cps1 ∧
+      (∀ x ∈ ign, x = 9 ∨ x = 32 ∨ x = 44 ∨ x = 10 ∨ x = 13 ∨ x = 0xFEFF) ∧ NotIgnoredHeadU cps1 ∧
+      (ws (utf8Encode cps) c).2.endR = c.endR + ign.length := by
+  have key : ∀ (bs : Bytes) (c : Cur) (cps : List Nat), AllScalar cps → bs = utf8Encode cps →
+      ∃ ign cps1, cps = ign ++ cps1 ∧ (ws bs c).1 = utf8Encode cps1 ∧
+        (∀ x ∈ ign, x = 9 ∨ x = 32 ∨ x = 44 ∨ x = 10 ∨ x = 13 ∨ x = 0xFEFF) := by
+    intro bs c
+    fun_induction ws bs c
+    case case1 c => intro cps hs hbs; exact ⟨[], cps, rfl, by simpa using hbs, by simp⟩
+    case case2 b r c hb ih =>
+      intro cps hs hbs
+      obtain ⟨t, rfl, e, hst⟩ := enc_ascii_head hs hbs.symm (by omega)
+      obtain ⟨ign, cps1, e1, e2, e3⟩ := ih t hst e
+      refine ⟨b :: ign, cps1, by simp [e1], e2, ?_⟩
+      intro x hx; simp at hx; rcases hx with rfl | hx
+      · omega
+      · exact e3 x hx
+    case case3 r c hb1 ih =>
+      intro cps hs hbs
+      obtain ⟨t, rfl, e, hst⟩ := enc_ascii_head hs hbs.symm (by omega)
+      obtain ⟨ign, cps1, e1, e2, e3⟩ := ih t hst e
+      refine ⟨10 :: ign, cps1, by simp [e1], e2, ?_⟩
+      intro x hx; simp at hx; rcases hx with rfl | hx
+      · omega
+      · exact e3 x hx
+    case case4 c r' hb1 hb2 ih =>
+      intro cps hs hbs
+      obtain ⟨t, rfl, e, hst⟩ := enc_ascii_prefix [13, 10] hs (by simpa using hbs.symm)
+        (by intro x hx; simp at hx; omega)
+      obtain ⟨ign, cps1, e1, e2, e3⟩ := ih t hst e
+      refine ⟨13 :: 10 :: ign, cps1, by simp [e1], e2, ?_⟩
+      intro x hx; simp at hx; rcases hx with rfl | rfl | hx
+      · omega
+      · omega
+      · exact e3 x hx
+    case case5 c r hr' hb1 hb2 ih =>
+      intro cps hs hbs
+      obtain ⟨t, rfl, e, hst⟩ := enc_ascii_head hs hbs.symm (by omega)
+      obtain ⟨ign, cps1, e1, e2, e3⟩ := ih t hst e
+      refine ⟨13 :: ign, cps1, by simp [e1], e2, ?_⟩
+      intro x hx; simp at hx; rcases hx with rfl | hx
+      · omega
+      · exact e3 x hx
+    case case6 c r' _ _ _ ih =>
+      intro cps hs hbs
+      obtain ⟨cp, t, rfl, hcs, hc128, hst, e⟩ := enc_high_head hs hbs.symm (by omega)
+      obtain ⟨rfl, e'⟩ := enc_bom hcs e.symm
+      obtain ⟨ign, cps1, e1, e2, e3⟩ := ih t hst e'.symm
+      refine ⟨0xFEFF :: ign, cps1, by simp [e1], e2, ?_⟩
+      intro x hx; simp at hx; rcases hx with rfl | hx
+      · omega
+      · exact e3 x hx
+    case case7 => intro cps hs hbs; exact ⟨[], cps, rfl, hbs, by simp⟩
+    case case8 => intro cps hs hbs; exact ⟨[], cps, rfl, hbs, by simp⟩
+  obtain ⟨ign, cps1, e0, h1, _, hH, h4, _, _⟩ := ws_u (utf8Encode cps) c cps hs rfl
+  obtain ⟨ign', cps1', e0', h1', h3'⟩ := key (utf8Encode cps) c cps hs rfl
+  -- the two decompositions coincide: both rests have the same encoding
+  have hlen : cps1.length = cps1'.length := by
+    have hsc : AllScalar cps1' := by rw [e0'] at hs; exact AllScalar_append_right hs
+    have hsc1 : AllScalar cps1 := by rw [e0] at hs; exact AllScalar_append_right hs
+    have d1 := Utf8.decode_encode cps1 hsc1
+    have d2 := Utf8.decode_encode cps1' hsc
+    rw [← h1, h1'] at d1
+    rw [d1] at d2
+    injection d2 with d2
+    rw [d2]
+  have hign : ign = ign' := by
+    have h := e0.symm.trans e0'
+    have hl : ign.length = ign'.length := by
+      have := congrArg List.length h
+      simp at this; omega
+    exact (List.append_inj h hl).1
+  subst hign
+  exact ⟨ign, cps1, e0, h1, h3', hH, h4⟩
+
+/-- One `ReadToken` step after `ws` (`readTokenBody`, run on the BYTES `utf8Encode cps1`) against one
+    lexical item of the specification (`Spec.item`, on the CODE POINTS `cps1`), for every text of
+    Unicode scalar values whose head is not an Ignored character (what `ws` leaves, `C03_ws_utf8`).
+    Same seven clauses as `C03_step_ascii`; extents `n` are counted in code points, the rest of the
+    model is the encoding of the rest of the specification.  In particular a non-ASCII character
+    where a token must start is an error on both sides (clauses 4 and 6). -/
+theorem C03_step_utf8 (cps1 : List Nat) (c1 : Cur) (hs : AllScalar cps1) (hH : NotIgnoredHeadU cps1) :
+    (Spec.item cps1 = .eof ↔ cps1 = []) ∧
+    (cps1 = [] → readTokenBody (utf8Encode cps1) c1 =
+        .tok (Token.mk .eof [] c1.endR c1.endR c1.line (colOf c1.endR c1.ls)) [] c1) ∧
+    (∀ n, Spec.item cps1 ≠ .ignored n) ∧
+    (∀ k v n, Spec.item cps1 = .token k v n → k ≠ .blockString →
+      ∃ t c', readTokenBody (utf8Encode cps1) c1 = .tok t (utf8Encode (cps1.drop n)) c' ∧ t.kind = k ∧
+        t.value = utf8Encode v ∧ t.start = c1.endR ∧ t.stop = c1.endR + n ∧ c'.endR = c1.endR + n) ∧
+    (Spec.item cps1 = .error → ∃ e, readTokenBody (utf8Encode cps1) c1 = .err e) ∧
+    (∀ t rest' c', readTokenBody (utf8Encode cps1) c1 = .tok t rest' c' → t.kind ≠ .eof →
+      t.kind ≠ .blockString →
+      ∃ v n, Spec.item cps1 = .token t.kind v n ∧ t.value = utf8Encode v ∧
+        rest' = utf8Encode (cps1.drop n) ∧ t.start = c1.endR ∧ t.stop = c1.endR + n) ∧
+    (∀ e, readTokenBody (utf8Encode cps1) c1 = .err e → Spec.item cps1 = .error) := by
+  have core := step_core_u cps1 c1 hs hH
+  have heof : cps1 = [] → readTokenBody (utf8Encode cps1) c1 =
+        .tok (Token.mk .eof [] c1.endR c1.endR c1.line (colOf c1.endR c1.ls)) [] c1 := by
+    intro h; subst h; simp [utf8Encode_nil, readTokenBody, simpleTok, Cur.adv]
+  have hblk : ∀ v n, Spec.item cps1 = .token .blockString v n →
+      ∃ t r' c', readTokenBody (utf8Encode cps1) c1 = .tok t r' c' ∧ t.kind = .blockString := by
+    intro v n hit
+    rw [hit] at core
+    simp only [CoreOKU, if_true] at core
+    obtain ⟨body, raw, nb, r, rfl, hbb, _, _⟩ := core
+    have hm := step_block_u body c1 ⟨c1.line, c1.ls, c1.endR + 3, false⟩
+      (AllScalar_tail (AllScalar_tail (AllScalar_tail hs))) ⟨⟨rfl, rfl, rfl⟩, by simp⟩
+    rw [hbb] at hm
+    obtain ⟨c', x, _, _, _, _, e5⟩ := hm
+    exact ⟨_, _, c', e5, rfl⟩
+  refine ⟨?_, heof, ?_, ?_, ?_, ?_, ?_⟩
+  · constructor
+    · intro h; rw [h] at core; exact core
+    · intro h; subst h; rfl
+  · intro n h; rw [h] at core; exact core
+  · intro k v n h hk
+    rw [h] at core
+    simp only [CoreOKU, hk, if_false] at core
+    obtain ⟨⟨t, c', e1, e2, e3, e4, e5, e6, _⟩, _⟩ := core
+    exact ⟨t, c', e1, e2, e3, e4, e5, e6⟩
+  · intro h; rw [h] at core; exact core
+  · intro t rest' c' hm hk1 hk2
+    cases hit : Spec.item cps1 with
+    | eof =>
+      rw [hit] at core
+      rw [heof core] at hm
+      injection hm with h1 _ _
+      subst h1
+      exact absurd rfl hk1
+    | ignored n => rw [hit] at core; exact core.elim
+    | error =>
+      rw [hit] at core
+      obtain ⟨e, he⟩ := core
+      rw [he] at hm; cases hm
+    | token k v n =>
+      by_cases hk : k = .blockString
+      · subst hk
+        obtain ⟨t', r', c'', e1, e2⟩ := hblk v n hit
+        rw [e1] at hm
+        injection hm with h1 _ _
+        subst h1
+        exact absurd e2 hk2
+      · rw [hit] at core
+        simp only [CoreOKU, hk, if_false] at core
+        obtain ⟨⟨t', c'', e1, e2, e3, e4, e5, _, _⟩, _⟩ := core
+        rw [e1] at hm
+        injection hm with h1 h2 _
+        subst h1
+        exact ⟨v, n, by rw [e2], e3, h2.symm, e4, e5⟩
+  · intro e hm
+    cases hit : Spec.item cps1 with
+    | eof =>
+      rw [hit] at core
+      rw [heof core] at hm; cases hm
+    | ignored n => rw [hit] at core; exact core.elim
+    | error => rfl
+    | token k v n =>
+      by_cases hk : k = .blockString
+      · subst hk
+        obtain ⟨t', r', c'', e1, _⟩ := hblk v n hit
+        rw [e1] at hm; cases hm
+      · rw [hit] at core
+        simp only [CoreOKU, hk, if_false] at core
+        obtain ⟨⟨t', c'', e1, _⟩, _⟩ := core
+        rw [e1] at hm; cases hm
+
+/-- Block strings over arbitrary scalars (same statement as `C03_block_ascii`): the grammar admits
+    no block string iff the model fails; otherwise the model's token has the specification's start
+    and stop, and its value and consumed extent additionally include the `quoteRun r` quotes that
+    directly follow the specification's closing quotes (recorded known finding); under
+    `NoLongQuoteRun body` value (UTF-8 of BlockStringValue(raw)), rest and cursor coincide. -/
+theorem C03_block_utf8 (body : List Nat) (c1 : Cur) (hs : AllScalar body) :
+    match Spec.blockBody body with
+    | none => Spec.item (34 :: 34 :: 34 :: body) = .error ∧
+        ∃ e, readTokenBody (utf8Encode (34 :: 34 :: 34 :: body)) c1 = .err e
+    | some (raw, nb, r) =>
+      Spec.item (34 :: 34 :: 34 :: body) = .token .blockString (Spec.blockStringValue raw) (nb + 3) ∧
+      r = (34 :: 34 :: 34 :: body).drop (nb + 3) ∧
+      ∃ t c', readTokenBody (utf8Encode (34 :: 34 :: 34 :: body)) c1 =
+          .tok t (utf8Encode (r.drop (quoteRun r))) c' ∧
+        t.kind = .blockString ∧ t.start = c1.endR ∧ t.stop = c1.endR + (nb + 3) ∧
+        c'.endR = c1.endR + (nb + 3) + quoteRun r ∧
+        t.value = blockStringValue (utf8Encode (normCR raw) ++ List.replicate (quoteRun r) 34) ∧
+        (NoLongQuoteRun body = true →
+          t.value = utf8Encode (Spec.blockStringValue raw) ∧
+          r.drop (quoteRun r) = (34 :: 34 :: 34 :: body).drop (nb + 3) ∧ c'.endR = c1.endR + (nb + 3)) := by
+  have hm := step_block_u body c1 ⟨c1.line, c1.ls, c1.endR + 3, false⟩ hs ⟨⟨rfl, rfl, rfl⟩, by simp⟩
+  cases hbb : Spec.blockBody body with
+  | none =>
+    rw [hbb] at hm
+    exact ⟨by rw [item_block, hbb], hm⟩
+  | some p =>
+    obtain ⟨raw, nb, r⟩ := p
+    rw [hbb] at hm
+    obtain ⟨c', x, e1, e2, e3, e4, e5⟩ := hm
+    have hd : r = (34 :: 34 :: 34 :: body).drop (nb + 3) := by
+      have := blockBody_drop hbb
+      simpa using this.symm
+    refine ⟨by rw [item_block, hbb], hd, _, c', e5, rfl, rfl, by simp [Cur.adv]; omega,
+      by rw [e4]; simp [Cur.adv]; omega, by simp, ?_⟩
+    intro hq
+    have hq0 : quoteRun r = 0 := by
+      unfold NoLongQuoteRun at hq
+      rw [hbb] at hq
+      simpa using hq
+    refine ⟨?_, by rw [hq0, ← hd]; simp, by rw [e4, hq0]; simp [Cur.adv]; omega⟩
+    simp only [hq0, List.replicate_zero, List.append_nil, List.reverse_nil, List.nil_append]
+    rw [blockStringValue_enc _ (blockBody_scalar hbb hs), model_value_eq_spec]
+
+/-- `C03_lex_utf8` stated on the code points: the model run on `utf8Encode cps` against the
+    specification run on `cps`, for every list of Unicode scalar values. -/
+theorem C03_lex_scalars (cps : List Nat) (hs : AllScalar cps) (hb : BlocksOK (cps.length + 1) cps = true) :
+    match Spec.lex cps with
+    | .ok toks => ∃ ts eof, lexAll (utf8Encode cps) = .done (ts ++ [eof]) ∧ eof.kind = .eof ∧
+        eof.value = [] ∧ ts.map obsT = toks.map obsS
+    | .error toks => ∃ ts e, lexAll (utf8Encode cps) = .fail ts e ∧ ts.map obsT = toks.map obsS :=
+  lexAll_lex_u cps hs hb
+
+/-- The token sequence of the model equals the token sequence of the lexical grammar, and the model
+    fails exactly where the grammar admits no token — for EVERY well-formed UTF-8 source `inp`
+    (`Utf8.decode inp = some cps`: `cps` are its code points) in which every block string met at an
+    item boundary satisfies `NoLongQuoteRun` (`BlocksOK` on the decoded text):
+     * `Spec.lex cps = .ok toks`    ⇒ `lexAll inp = .done (ts ++ [eof])`, `eof` the EOF token, and `ts`
+       agrees with `toks` token by token in kind, value (UTF-8 of the specification's code points),
+       start and stop (offsets in CODE POINTS: `obsT t = (t.kind, t.value, t.start, t.stop)`,
+       `obsS s = (s.kind, utf8Encode s.value, s.start, s.stop)`);
+     * `Spec.lex cps = .error toks` ⇒ `lexAll inp = .fail ts e` with the same agreement of the tokens
+       lexed before the error.
+    Line and column: `C04_tokens_are_spec_tokens_utf8`. -/
+theorem C03_lex_utf8 (inp : Bytes) (cps : List Nat) (h : Utf8.decode inp = some cps)
+    (hb : BlocksOK (cps.length + 1) cps = true) :
+    match Spec.lex cps with
+    | .ok toks => ∃ ts eof, lexAll inp = .done (ts ++ [eof]) ∧ eof.kind = .eof ∧ eof.value = [] ∧
+        ts.map obsT = toks.map obsS
+    | .error toks => ∃ ts e, lexAll inp = .fail ts e ∧ ts.map obsT = toks.map obsS := by
+  obtain ⟨h1, h2⟩ := Utf8.decode_sound inp cps h
+  rw [← h1]
+  exact lexAll_lex_u cps h2 hb
+
+/-- the same with the hypothesis `Utf8.valid inp` of the property text -/
+theorem C03_lex_utf8_valid (inp : Bytes) (h : Utf8.valid inp) :
+    ∃ cps, Utf8.decode inp = some cps ∧ (BlocksOK (cps.length + 1) cps = true →
+      match Spec.lex cps with
+      | .ok toks => ∃ ts eof, lexAll inp = .done (ts ++ [eof]) ∧ eof.kind = .eof ∧ eof.value = [] ∧
+          ts.map obsT = toks.map obsS
+      | .error toks => ∃ ts e, lexAll inp = .fail ts e ∧ ts.map obsT = toks.map obsS) := by
+  unfold Utf8.valid at h
+  cases hd : Utf8.decode inp with
+  | none => rw [hd] at h; cases h
+  | some cps => exact ⟨cps, rfl, fun hb => C03_lex_utf8 inp cps hd hb⟩
+
+/-- Unconditional form for well-formed UTF-8 sources without three consecutive quotes. -/
+theorem C03_lex_utf8_no_block (inp : Bytes) (cps : List Nat) (h : Utf8.decode inp = some cps)
+    (hq : NoTripleQuote cps = true) :
+    match Spec.lex cps with
+    | .ok toks => ∃ ts eof, lexAll inp = .done (ts ++ [eof]) ∧ eof.kind = .eof ∧ eof.value = [] ∧
+        ts.map obsT = toks.map obsS
+    | .error toks => ∃ ts e, lexAll inp = .fail ts e ∧ ts.map obsT = toks.map obsS :=
+  C03_lex_utf8 inp cps h (BlocksOK_of_noTriple _ cps hq)
+
+/-- The model never runs out of fuel and succeeds iff the grammar tokenises the whole source. -/
+theorem C03_lex_utf8_outcome (inp : Bytes) (cps : List Nat) (h : Utf8.decode inp = some cps)
+    (hb : BlocksOK (cps.length + 1) cps = true) :
+    ((∃ toks, Spec.lex cps = .ok toks) ↔ ∃ ts, lexAll inp = .done ts) ∧
+    ((∃ toks, Spec.lex cps = .error toks) ↔ ∃ ts e, lexAll inp = .fail ts e) := by
+  have h := C03_lex_utf8 inp cps h hb
+  cases hs : Spec.lex cps with
+  | ok toks =>
+    rw [hs] at h
+    obtain ⟨ts, eof, e1, _⟩ := h
+    refine ⟨⟨fun _ => ⟨_, e1⟩, fun _ => ⟨toks, rfl⟩⟩, ⟨?_, ?_⟩⟩
+    · intro ⟨_, h⟩; cases h
+    · intro ⟨_, _, h⟩; rw [e1] at h; cases h
+  | error toks =>
+    rw [hs] at h
+    obtain ⟨ts, e, e1, _⟩ := h
+    refine ⟨⟨?_, ?_⟩, ⟨fun _ => ⟨_, _, e1⟩, fun _ => ⟨toks, rfl⟩⟩⟩
+    · intro ⟨_, h⟩; cases h
+    · intro ⟨_, h⟩; rw [e1] at h; cases h
+
+/-- Outside the property (the specification is about well-formed sources), but cheap and exact: a
+    byte ≥ 128 where a token must start — the lead byte of a valid multi-byte character, a stray
+    continuation byte or any other invalid byte alike — always fails, at the cursor, with the
+    message built from that single BYTE read as a code point (Go: `string(rune(byte))`). -/
+theorem C03_lex_invalid_utf8_partial (b : Nat) (tl : Bytes) (c : Cur) (hb : 128 ≤ b) :
+    readTokenBody (b :: tl) c =
+      .err { msg := str "Cannot parse the unexpected character \"" ++ encodeRune b ++ str "\".",
+             line := c.line, col := colOf c.endR c.ls } := by
+  rw [readTokenBody_bad b tl c (punct_high (by omega)) (by omega) (by omega)
+    (by simp [isNameStart]; omega) (by simp [isDigit]; omega) (by omega)]
+  have h1 : ¬ (b < 32 ∧ b ≠ 9 ∧ b ≠ 10 ∧ b ≠ 13) := by omega
+  have h2 : ¬ b = 39 := by omega
+  simp only [unexpectedChar, h1, h2, if_false, mkErr]
+
+-- non-ASCII sources: two-byte character in a string, a comment with a three-byte character, BOM
+example : Utf8.decode [0xEF, 0xBB, 0xBF, 34, 0xC3, 0xA9, 34] = some [0xFEFF, 34, 0xE9, 34] := by decide
+example : (match Spec.lex [0xFEFF, 34, 0xE9, 34] with | .ok ts => ts.map obsS | _ => []) =
+    [(Kind.string, [0xC3, 0xA9], 1, 4)] := by decide
+example : BlocksOK 5 [0xFEFF, 34, 0xE9, 34] = true := by decide
+
 #print axioms C03_step_ascii
 #print axioms C03_block_ascii
 #print axioms C03_block_long_run_counterexample
 #print axioms C03_lex_ascii
 #print axioms C03_lex_ascii_no_block
 #print axioms C03_lex_ascii_outcome
+#print axioms C03_utf8_decode_iff
+#print axioms C03_ws_utf8
+#print axioms C03_step_utf8
+#print axioms C03_block_utf8
+#print axioms C03_lex_scalars
+#print axioms C03_lex_utf8
+#print axioms C03_lex_utf8_valid
+#print axioms C03_lex_utf8_no_block
+#print axioms C03_lex_utf8_outcome
+#print axioms C03_lex_invalid_utf8_partial
